@@ -64,7 +64,7 @@ for m, msg in (("to_receiver", "is not a receiver"), ("to_sender", "is not a sen
                    "findings_demo: `cargo run --features inproc -- kind` -> PANICKED; without the feature -> Ok"))
 
 # ---- C12
-for _p in ("C12", "C03", "C07"):
+for _p in ("C12", "C03", "C07", "C06"):
   F.append(open_(_p, "CLOSED-ORIGIN", "CLOSED-ORIGIN:platform::unix::recv:libc::recv==0",
                "recv() reports UnixError::ChannelClosed when the per-message follow-up socket hits EOF: a sender process killed in the middle of a multi-fragment "
                "message makes a plain receiver report Disconnected, and makes a receiver set deregister and close the member (a router drops the route), although "
